@@ -17,14 +17,12 @@ P = c01.P
 
 def prepare(runner, work):
     c01.prepare(runner, work)
-    global P
-    P = c01.P
 
 def scenarios(rng, tier, runner):
     out = []
     n = 700 if tier == "quick" else 10000
     for i in range(n):
-        name = rng.choice(["cur", "loc", "loc", "v13"])
+        name = rng.choice(["cur", "loc", "syn", "syn", "v13"])
         B, D = P[name]
         same = rng.random() < 0.75
         modes = rng.choice([None, [2], [4], [0], [1], [2, 4], [3, 0], [1, 1, 4]])
